@@ -58,6 +58,7 @@ class Kernel(object):
         self.before_kcall = lambda kind, pid: None
         self.obeys_policy = lambda args: True       # per-spawn worker behaviour
         self.spawn_faults = []        # list of exception instances raised by the next spawns ([None] = ok)
+        self.bad_spawn = {}           # watcher name -> kind: every spawn of that watcher raises (persistent, non-OSError)
         self.instant_death = False    # True: a fatal signal kills before the daemon's next instruction
         self.dying = {}               # pid -> pending fatal signal (death happens at settle())
         self.siglog = []              # (t, pid, sig, sender) sender in {"sup","ext"}
@@ -170,6 +171,11 @@ class Kernel(object):
             if f is not None:
                 self.rec("spawnfail", r="OSError" if isinstance(f, OSError) else type(f).__name__)
                 raise f
+        if isinstance(args, (list, tuple)) and len(args) >= 2 and args[0] == "simworker" and str(args[1]) in self.bad_spawn:
+            # a watcher whose every spawn fails with something spawn_process does not catch (not a stimulus: it
+            # happens at every attempt, by itself)
+            self.rec("spawnbad", w=str(args[1]), r=self.bad_spawn[str(args[1])])
+            raise RuntimeError("scripted persistent spawn failure of %s" % args[1])
         pid = self.nextpid
         self.nextpid += 1
         sp = SimProc(pid, None, self.obeys_policy(args), args, kw, born=self.clock())
